@@ -85,7 +85,7 @@ def sys_run(ctx, N, warm, cs, legacy, qstep=1, sub=1024):
 def run(ctx):
     quick = ctx.tier == "quick"
     cat = BR.catalogue(ctx.tier)
-    names = ["A", "B", "C2", "D", "E"] if quick else list(cat)
+    names = ["A", "B", "C2", "E"] if quick else list(cat)
     ctx.rule = ("(a) every behaviour generated from BrownianImpl replayed on the real object (exception / cache length); "
                 "(b) solver-shaped runs of n steps forward and backward with the real warm-up, sampling Python frame "
                 "depth and cache length; (c) sdeint with default / dyadic Brownian motion; case = (configuration, "
@@ -148,7 +148,7 @@ def run(ctx):
     k = 0
     for name in names:
         cfg = cat[name]
-        behs, _ = BR.behaviours(ctx, name, cfg, 3 if cfg.T // cfg.QStep <= 4 else 2, 100 if quick else 600, ctx.seed)
+        behs, _ = BR.behaviours(ctx, name, cfg, 3 if cfg.T // cfg.QStep <= 4 else 2, 60 if quick else 600, ctx.seed)
         traces = []
         for beh in behs:
             qs = BR.history(beh)
@@ -169,7 +169,7 @@ def run(ctx):
                               replay=dict(cfg=cfg.as_dict(), queries=traces[i][0]))
 
     # ---- binding: long solver-shaped runs, real warm-up constant ------------------------------------
-    n_small, n_big = (300, 3000) if quick else (1000, 30000)
+    n_small, n_big = (200, 1200) if quick else (1000, 30000)
     runs = []
     for cs in (0, 1, 45, None):
         runs.append(dict(cache_size=cs))
@@ -177,9 +177,15 @@ def run(ctx):
              dict(cache_size=45, tol=1e-2, retries=True), dict(cache_size=3, tol=1e-3),
              dict(cache_size=45, dt_hint=True), dict(cache_size=0, dt_hint=True)]
     dy = [dict(cache_size=45, tol=2.0 ** -14, halfway=True), dict(cache_size=1, tol=1e-4, halfway=True, retries=True)]
+    if quick:
+        runs = [runs[0], runs[2], runs[5], runs[6], runs[9]]
+        dy = dy[:1]
     for kw in runs + dy:
         rs = P.long_run(n_small, **kw)
-        rb = P.long_run(n_big if not kw.get("halfway") else min(n_big, 2000), **kw)
+        nb = n_big if not kw.get("halfway") else min(n_big, 2000)
+        if kw.get("cache_size") == 0 and not kw.get("dt_hint"):
+            nb = min(nb, 400 if quick else 3000)       # without any cache every query recomputes its whole ancestry
+        rb = P.long_run(nb, **kw)
         ctx.case(("long", str(sorted(kw.items(), key=str))), sample=dict(run=kw, small=rs, big=rb))
         for r in (rs, rb):
             if r["exc"]:
